@@ -94,19 +94,37 @@ class Scratch:
         self.model = model
         self.common = load(COMMON, sym=sym, transforms=transforms.get(COMMON, ()))
         self.wl = load(WL_COMMON, sym=sym, transforms=transforms.get(WL_COMMON, ()))
-        self.wl["_matrix_transpose"] = self.common["_matrix_transpose"]
         self.relpath = MODEL_FILES[model]
         self.ns = load(self.relpath, sym=sym, transforms=transforms.get(self.relpath, ()))
-        for n in ("_rank_data", "_unary_minus"):
-            if n in self.ns:
-                self.ns[n] = self.common[n]
-        for n in ("_unwind", "_ladder_pairs", "phi_major", "phi_major_inverse",
-                  "phi_minor", "v", "w", "vt", "wt"):
-            if n in self.ns:
-                self.ns[n] = self.wl[n]
+        # whatever a module imports from the two shared modules (by any name, including helpers
+        # added later) is pointed at the scratch copy, so that rebinding reaches it
+        self.sym = sym
+        self.sources = {"openskill.models.common": self.common, "openskill.models.weng_lin.common": self.wl}
+        self._rewire(self.wl)
+        self._rewire(self.ns)
         self.cls = self.ns[model]
         self.rating_cls = self.ns[model + "Rating"]
         self.team_cls = self.ns[model + "TeamRating"]
+
+    def _rewire(self, ns):
+        import types
+        for n, obj in list(ns.items()):
+            if not isinstance(obj, types.FunctionType):
+                continue
+            mod = getattr(obj, "__module__", None) or ""
+            src = self.sources.get(mod)
+            if src is None and mod.startswith("openskill.") and mod != "openskill.models.weng_lin." + os.path.basename(self.relpath)[:-3]:
+                # a function imported from another module of the package (e.g. a helper module a
+                # clean-up introduced): that module gets a scratch copy as well
+                rel = mod.replace(".", "/") + ".py"
+                if os.path.exists(os.path.join(REPO, rel)) and rel not in MODEL_FILES.values():
+                    src = self.sources[mod] = load(rel, sym=self.sym)
+                    self._rewire(src)
+            if src is None:
+                continue
+            real = getattr(obj, "__name__", n)
+            if real in src:
+                ns[n] = src[real]
 
     def stub_wl(self, name, fn):
         """Replace a weng_lin/common function for both the model and common."""
